@@ -399,6 +399,16 @@ class _rewrite_captured_vars(ast.NodeTransformer):
         return any([a == a_name for frames in self._ignore_stack for a in frames])
 
 
+def _lambda_binder_names(args: ast.arguments) -> List[str]:
+    "Every name a lambda binds: positional-only, plain, keyword-only, `*args` and `**kwargs`"
+    binders = list(getattr(args, "posonlyargs", [])) + list(args.args) + list(args.kwonlyargs)
+    if args.vararg is not None:
+        binders.append(args.vararg)
+    if args.kwarg is not None:
+        binders.append(args.kwarg)
+    return [a.arg for a in binders]
+
+
 class _resolve_called_lambdas(ast.NodeTransformer):
     "Resolve any `(lambda x: x + 1)(y)` calls into just `y + 1`."
 
@@ -413,7 +423,7 @@ class _resolve_called_lambdas(ast.NodeTransformer):
         names = set()
         for n in ast.walk(node):
             if isinstance(n, ast.Lambda):
-                names.update(a.arg for a in n.args.args)
+                names.update(_lambda_binder_names(n.args))
             elif isinstance(n, ast.comprehension):
                 names.update(t.id for t in ast.walk(n.target) if isinstance(t, ast.Name))
         return names
@@ -424,12 +434,18 @@ class _resolve_called_lambdas(ast.NodeTransformer):
             lambda_node = node.func
 
             # Ensure the call is a plain positional one that matches the lambda's arguments
-            if len(lambda_node.args.args) == len(node.args) and len(node.keywords) == 0:
+            # (positional-only ones included; keyword-only and variadic ones are left alone)
+            l_args = lambda_node.args
+            positional = list(getattr(l_args, "posonlyargs", [])) + list(l_args.args)
+            only_positional = (
+                len(l_args.kwonlyargs) == 0 and l_args.vararg is None and l_args.kwarg is None
+            )
+            if only_positional and len(positional) == len(node.args) and len(node.keywords) == 0:
                 arg_values = [self.visit(a) for a in node.args]
 
                 # First resolve everything inside the body, leaving this lambda's own
                 # arguments alone.
-                self._arg_map_list.append({a.arg: None for a in lambda_node.args.args})
+                self._arg_map_list.append({a.arg: None for a in positional})
                 body = self.visit(lambda_node.body)
                 self._arg_map_list.pop()
 
@@ -439,7 +455,7 @@ class _resolve_called_lambdas(ast.NodeTransformer):
                 used = {n.id for a in arg_values for n in ast.walk(a) if isinstance(n, ast.Name)}
                 if len(used & self._bound_names(body)) == 0:
                     arg_map: Dict[str, Optional[ast.AST]] = {
-                        lambda_node.args.args[i].arg: arg_values[i] for i in range(len(arg_values))
+                        positional[i].arg: arg_values[i] for i in range(len(arg_values))
                     }
                     self._arg_map_list.append(arg_map)
                     result = self.visit(body)
@@ -452,7 +468,7 @@ class _resolve_called_lambdas(ast.NodeTransformer):
 
     def visit_Lambda(self, node: ast.Lambda) -> Any:
         "A lambda's own arguments hide the arguments we are substituting"
-        self._arg_map_list.append({a.arg: None for a in node.args.args})
+        self._arg_map_list.append({name: None for name in _lambda_binder_names(node.args)})
         result = self.generic_visit(node)
         self._arg_map_list.pop()
         return result
